@@ -36,7 +36,7 @@ func init() {
 		Level: "exploration",
 		Rule: "case = G goroutines (2, 4, 16, 64 by index), goroutine g owns UE context g (own keys, algorithm pair cycling through {NIA1,NIA2}x{NEA0,NEA1,NEA2}) and executes a seeded script (lock-step prefix of 3 rounds over all operation kinds, then one burst of 16 (quick) / 64 (thorough) consecutive operations per kind at the same script positions in every goroutine, then a mixed random tail of 60 / 400) of operations drawn from " +
 			"NGAP build+encode, NGAP decode, plain NAS encode/decode, NAS protect (EncodeNasPduWithSecurity), NAS unprotect (NASDecode), key derivation (DeriveRESstarAndSetKey), NASEncrypt, NASMacCalculate, Milenage F1/F2345, and - generated inside the goroutine - any of the 77 NGAP message types (encode, decode, re-encode), the 25 transfer container types through aper.MarshalWithParams/UnmarshalWithParams, any of the 45 NAS message types with a random optional-IE subset, the 64 builders that do not write the announced PLMN, the identity / conversion helpers (EncodeSuci, CreateUE, capability, PLMN, S-NSSAI, AMF id, transport address, PCO, DNN) and the two hand-written extractors on reference-built messages; " +
-			"GOMAXPROCS alternates between 2 and 16, Gosched calls are sprinkled by the script. Each case is a fresh process: the scripts run concurrently FIRST (caches and lazily built tables cold; a lock-step prefix makes every goroutine use each operation kind on identical inputs at the same time, so first uses collide), then one goroutine at a time for reference. Seven further cases are HOT LOOPS: 8 goroutines with related keys (equal leading octets) run 12 000 (quick) / 120 000 (thorough) iterations of one or two cheap operation kinds (MAC+cipher, key derivation, Milenage, conversions, ...), for windows of a few instructions. distinct = hash(G, scripts); non-trivial = overlapping operations were observed",
+			"GOMAXPROCS alternates between 2 and 16, Gosched calls are sprinkled by the script. Each case is a fresh process: the scripts run concurrently FIRST (caches and lazily built tables cold; a lock-step prefix makes every goroutine use each operation kind on identical inputs at the same time, so first uses collide), then one goroutine at a time for reference. Seven further cases are HOT LOOPS: 8 goroutines with related keys (equal leading octets; in every second loop IDENTICAL keys and pairs of goroutines issuing the same calls with the same inputs) run 12 000 (quick) / 120 000 (thorough) iterations of one or two cheap operation kinds (MAC+cipher, key derivation, Milenage, conversions, ...), for windows of a few instructions. distinct = hash(G, scripts); non-trivial = overlapping operations were observed",
 		Assumptions: []string{
 			"NG Setup (which writes the announced PLMN) is issued once before the goroutines start, as in the emulator",
 			"'all interleavings' is approached by stress; the race detector's verdict is timing independent (happens-before), the determinism oracle's is not",
@@ -180,7 +180,9 @@ func c20Op(a *c20Actor, kind int) [32]byte {
 // of a key, and caches keyed by a prefix or a hash of it, only collide for related keys.
 func c20Related(seed int64, g int, own []byte) []byte {
 	base := rbytes(rand.New(rand.NewSource(seed^0x6b65)), len(own))
-	switch seed % 4 {
+	switch seed % 5 {
+	case 4:
+		copy(own, base) // the very same value for every UE (the emulator's own UEs share one configured K / OPc)
 	case 1:
 		copy(own[:len(own)-2], base[:len(own)-2]) // same leading octets
 	case 2:
@@ -228,8 +230,16 @@ func runC20Hot(c *fw.Case, set []int) (o fw.Outcome) {
 	old := runtime.GOMAXPROCS(16)
 	defer runtime.GOMAXPROCS(old)
 	seed := c.R.Int63()
-	seed -= seed % 4
+	seed -= seed % 5
 	seed += 1 // related keys: equal leading octets for K; the NAS keys get their own relation by seed+2 / seed+3
+	// every second hot loop: all UEs hold IDENTICAL key material and goroutines 2j / 2j+1 are twins that issue the same
+	// calls with the same inputs (only SUPI and ids differ) - state keyed by key or input BYTES is then truly shared
+	twins := (c.Idx/len(c20HotSets)+c.Idx)%2 == 1
+	for _, k := range set {
+		if c20OpNames[k] == "key-derivation" { // keyed by derived key BYTES all the way down: only identical inputs share anything
+			twins = true
+		}
+	}
 	names := ""
 	for _, k := range set {
 		names += c20OpNames[k] + " "
@@ -245,8 +255,17 @@ func runC20Hot(c *fw.Case, set []int) (o fw.Outcome) {
 		for _, k := range [][]byte{a.ue.KnasInt[:], a.ue.KnasEnc[:]} { // same first octets for every UE of the case
 			k[0], k[1] = byte(seed>>8), byte(seed>>16)
 		}
+		if twins {
+			a0 := c20NewActor(seed, 0)
+			a.k, a.opc, a.ue.KnasEnc, a.ue.KnasInt = a0.k, a0.opc, a0.ue.KnasEnc, a0.ue.KnasInt
+			a.r = rand.New(rand.NewSource(seed + int64(g/2)*7919 + 1))
+			a.own = a.r
+		}
 		a.dlUE.KnasEnc, a.dlUE.KnasInt = a.ue.KnasEnc, a.ue.KnasInt
 		return a
+	}
+	if twins {
+		o.Tag("hot-loop:identical-keys-and-twin-inputs")
 	}
 	got := make([][][32]byte, G)
 	var wg sync.WaitGroup
